@@ -97,6 +97,10 @@ def validate_family(ctx, pid, traces, topology, hdr, family, nontrivial_actions,
     nev = sum(len(t["events"]) for t in traces)
     ctx.evaluated(nev)
     if ok:
+        gone = [t["aborted"] for t in traces if t.get("aborted")]
+        if gone:
+            raise MachineryError("scripted scenario of %s stopped early (%s) although Onion.tla accepts every recorded event: "
+                                 "the script's assumption does not hold on this tree" % (family, gone[0]))
         ctx.traces(len(traces))
         for t in traces:
             acts = tuple(e["a"] for e in t["events"])
@@ -150,6 +154,17 @@ def build(w, o, goal, until=None):
             break
         w.deliver(w.net.inflight[0].seq)
     return cid
+
+
+def guarded(w, fn, *a, **k):
+    """run a scripted scenario; if the real nodes lose an object the script relies on, stop there (the recorded events,
+    including the step that lost it, are validated as usual). Returns the reason or None."""
+    from .onion import Gone
+    try:
+        fn(*a, **k)
+    except Gone as exc:
+        return str(exc)
+    return None
 
 
 def subsets(items, upto):
